@@ -3,6 +3,7 @@ package main
 import (
 	"fmt"
 	"go/types"
+	"net/http"
 	"strings"
 
 	"golang.org/x/tools/go/ssa"
@@ -81,7 +82,7 @@ func runC14(c *Ctx) {
 	for _, v := range vs {
 		f := authClosure(p, v.outer)
 		cb := callbackCall(f)
-		c.obF("R14.1", f, "calls-callback", cb != nil, "the authenticator consults the application's callback", "")
+		c.obRF("R14.1", f, "calls-callback", cb != nil, "the authenticator consults the application's callback", "")
 		if cb == nil {
 			continue
 		}
@@ -154,7 +155,16 @@ func runC14(c *Ctx) {
 					}
 				}
 			}
-			c.obF("R14.1", outer, "key-read-by-name-from-location", nHdr == 1 && nQry == 1, "an API key is read under its configured name from the header or from the query", fmt.Sprintf("header getters %d, query getters %d", nHdr, nQry))
+			// a header key is read through Header.Get (which canonicalises the configured name), never by indexing the map
+			for _, a := range anonFuncsDeep(outer) {
+				for _, in := range instrs(a) {
+					if lk, ok := in.(*ssa.Lookup); ok && typeStr(lk.X.Type()) == "net/http.Header" {
+						k, isK := constString(lk.Index)
+						c.obD("R14.1", lk, "header-key-read-canonically", isK && http.CanonicalHeaderKey(k) == k, "an API key in a header is read with Header.Get(name): the configured name is matched case-insensitively, as the client's header is canonicalised in transit", "the header map is indexed directly with the configured name")
+					}
+				}
+			}
+			c.obRF("R14.1", outer, "key-read-by-name-from-location", nHdr == 1 && nQry == 1, "an API key is read under its configured name from the header or from the query", fmt.Sprintf("header getters %d, query getters %d", nHdr, nQry))
 		case "bearer":
 			tok := cb.Call.Args[off]
 			hdrs := callsIn(f, "(net/http.Header).Get")
@@ -355,23 +365,22 @@ func runC14(c *Ctx) {
 	}
 	ak := p.Fn("rt/client.APIKeyAuth")
 	nQ, nH := 0, 0
-	for _, a := range ak.AnonFuncs {
-		for _, ci := range callsIn(a, "(rt.ClientRequest).SetQueryParam") {
-			_, ca := callArgs(ci.Common())
-			elems, _ := sliceLitElems(ca[1])
-			if isOuterParam(ca[0], ak, 0) && len(elems) == 1 && isOuterParam(elems[0], ak, 2) {
-				nQ++
-			}
-		}
-		for _, ci := range callsIn(a, "(rt.ClientRequest).SetHeaderParam") {
-			_, ca := callArgs(ci.Common())
-			elems, _ := sliceLitElems(ca[1])
-			if isOuterParam(ca[0], ak, 0) && len(elems) == 1 && isOuterParam(elems[0], ak, 2) {
-				nH++
+	for _, a := range anonFuncsDeep(ak) {
+		for _, kind := range []string{"(rt.ClientRequest).SetQueryParam", "(rt.ClientRequest).SetHeaderParam"} {
+			for _, ci := range callsIn(a, kind) {
+				_, ca := callArgs(ci.Common())
+				elems, _ := sliceLitElems(ca[1])
+				okW := isOuterParam(ca[0], ak, 0) && len(elems) == 1 && isOuterParam(elems[0], ak, 2)
+				c.obI("R14.5", ci, "key-written-verbatim", okW, "the API key writer sets exactly the given value under the given name (no escaping or rewriting of the credential: the server compares what it receives with what was issued)", "the name or the value written is not the constructor's argument")
+				if okW && strings.HasSuffix(kind, "SetQueryParam") {
+					nQ++
+				} else if okW {
+					nH++
+				}
 			}
 		}
 	}
-	c.obF("R14.5", ak, "key-writer", nQ == 1 && nH == 1, "APIKeyAuth writes the value under the given name to the query or to the header", fmt.Sprintf("query writers %d, header writers %d", nQ, nH))
+	c.obRF("R14.5", ak, "key-writer", nQ == 1 && nH == 1, "APIKeyAuth writes the value under the given name to the query or to the header", fmt.Sprintf("query writers %d, header writers %d", nQ, nH))
 	// the header constant shared by both sides
 	c.ob("R14.5", "rt", "shared-header-constant", "-", strings.Trim(p.ConstVal("rt", "HeaderAuthorization"), "\"") == serverHdr, "client and server use the same Authorization header constant", "")
 	sh := p.Fn("(*rt/client.request).SetHeaderParam")
@@ -515,7 +524,7 @@ func ruleQuerySnapshotAfterAuth(c *Ctx, rule string) {
 			snaps = append(snaps, lk)
 		}
 	}
-	c.obF(rule, bh, "auth-writer-and-snapshot", len(authCalls) >= 1 && len(snaps) >= 1, "buildHTTP runs the auth writer and snapshots the client-set query parameters", fmt.Sprintf("%d auth writer calls, %d snapshots", len(authCalls), len(snaps)))
+	c.obRF(rule, bh, "auth-writer-and-snapshot", len(authCalls) >= 1 && len(snaps) >= 1, "buildHTTP runs the auth writer and snapshots the client-set query parameters", fmt.Sprintf("%d auth writer calls, %d snapshots", len(authCalls), len(snaps)))
 	for _, sn := range snaps {
 		late := true
 		for _, a := range authCalls {
